@@ -19,6 +19,7 @@ var errFakeConnClosed = errors.New("fake carrier closed")
 type fakeConn struct {
 	name      string
 	in        chan []byte // upstream chunks; closed = the carrier was cut / ended by the peer
+	eofc      chan struct{} // alternative cut signal for feeders that race with the cut (C01)
 	rbuf      []byte
 	out       chan []byte // downstream writes, in order (nil: recorded in Out only)
 	closed    chan struct{}
@@ -31,7 +32,7 @@ type fakeConn struct {
 }
 
 func newFakeConn(name string) *fakeConn {
-	return &fakeConn{name: name, in: make(chan []byte, 64), closed: make(chan struct{}), WriteFailAfter: -1}
+	return &fakeConn{name: name, in: make(chan []byte, 64), eofc: make(chan struct{}), closed: make(chan struct{}), WriteFailAfter: -1}
 }
 
 func (c *fakeConn) Read(p []byte) (int, error) {
@@ -47,6 +48,9 @@ func (c *fakeConn) Read(p []byte) (int, error) {
 				return 0, io.EOF
 			}
 			c.rbuf = chunk
+		case <-c.eofc:
+			// the connection is gone; chunks still in flight are lost with it
+			return 0, io.EOF
 		}
 	}
 	n := copy(p, c.rbuf)
@@ -102,3 +106,17 @@ func (c *fakeConn) RemoteAddr() net.Addr               { return strAddr(c.name) 
 func (c *fakeConn) SetDeadline(t time.Time) error      { return nil }
 func (c *fakeConn) SetReadDeadline(t time.Time) error  { return nil }
 func (c *fakeConn) SetWriteDeadline(t time.Time) error { return nil }
+
+// CutEOF ends the upstream direction without closing the chunk channel (safe against concurrent
+// TryFeed); chunks in flight may or may not be delivered before the reader sees EOF.
+func (c *fakeConn) CutEOF() { close(c.eofc) }
+
+// TryFeed hands upstream bytes to the carrier unless it has been cut.
+func (c *fakeConn) TryFeed(b []byte, dead <-chan struct{}) bool {
+	select {
+	case c.in <- append([]byte(nil), b...):
+		return true
+	case <-dead:
+		return false
+	}
+}
